@@ -531,7 +531,7 @@ pub fn check_bridge_session(c: &BridgeSession, st: &mut Stats) -> Result<(), Str
 fn bridge_session_strategy() -> impl Strategy<Value = BridgeSession> {
     let line = prop_oneof![
         8 => any_msg_strategy().prop_map(|m| wire_of(&m)),
-        2 => (any_msg_strategy(), any::<u16>(), proptest::sample::select(b"0123456789ABCDEFabcdef:G\r ".to_vec())).prop_map(|(m, sel, ch)| {
+        2 => (any_msg_strategy(), any::<u16>(), proptest::sample::select(b"0123456789ABCDEFabcdef:G\r +-_xX".to_vec())).prop_map(|(m, sel, ch)| {
             let mut w = wire_of(&m);
             let i = crate::engine::pick_idx(sel, w.len());
             w[i] = ch;
@@ -545,7 +545,21 @@ fn bridge_session_strategy() -> impl Strategy<Value = BridgeSession> {
         3 => Just(BusBehaviour::Silent),
         1 => Just(BusBehaviour::Fail),
     ];
-    (proptest::collection::vec((line, bus), 1..=6), prop_oneof![3 => Just(None), 1 => (2u8..9).prop_map(Some)]).prop_map(|(lines, interrupt_every)| BridgeSession { lines, interrupt_every })
+    // relation between neighbouring lines: 0 = as generated, 1 = the line is the wire form of the reply the bus just gave
+    // (an echo of the bridge's own output, or a sign-type frame from another device), 2 = the previous line again
+    let relation = prop_oneof![6 => Just(0u8), 2 => Just(1u8), 1 => Just(2u8)];
+    (proptest::collection::vec((line, bus, relation), 1..=6), prop_oneof![3 => Just(None), 1 => (2u8..9).prop_map(Some)]).prop_map(|(raw, interrupt_every)| {
+        let mut lines: Vec<(Vec<u8>, BusBehaviour)> = vec![];
+        for (l, b, rel) in raw {
+            let l = match (rel, lines.last()) {
+                (1, Some((_, BusBehaviour::Reply(m)))) => wire_of(m),
+                (2, Some((prev, _))) => prev.clone(),
+                _ => l,
+            };
+            lines.push((l, b));
+        }
+        BridgeSession { lines, interrupt_every }
+    })
 }
 
 // ---------------------------------------------------------------------------------------
@@ -586,7 +600,7 @@ fn bridge_strategy() -> impl Strategy<Value = BridgeCase> {
     let line = prop_oneof![
         8 => any_msg_strategy().prop_map(|m| wire_of(&m)),
         // one damaged character in an encoded frame
-        3 => (any_msg_strategy(), any::<u16>(), proptest::sample::select(b"0123456789ABCDEFabcdef:G\r ".to_vec())).prop_map(|(m, sel, ch)| {
+        3 => (any_msg_strategy(), any::<u16>(), proptest::sample::select(b"0123456789ABCDEFabcdef:G\r +-_xX".to_vec())).prop_map(|(m, sel, ch)| {
             let mut w = wire_of(&m);
             let i = crate::engine::pick_idx(sel, w.len());
             w[i] = ch;
